@@ -140,6 +140,18 @@ PROPS["C07"] = {
             "trace": {"module": "HealthSchedTrace", "cfg": "HealthSched_trace.cfg"},
             "nontrivial": lambda s: any((isinstance(x, list) and x[0] in ("SetBackend", "Start") and x[-1] != "ok") or x == "ProxyFailure" for x in s),
         },
+        {
+            # the RUNNING checker (StartChecking, its own ticker) in real time: the gaps between the probes the backend
+            # sees follow check_interval x 1, 2, 4, .. (HealthTick.tla judges the measurements)
+            "name": "ticker",
+            "mc": [],
+            "quick": {"gen": [{"module": "HealthTick", "cfg": "HealthTick_gen.cfg", "params": {"Intervals": "{1000, 2000}"}}]},
+            "thorough": {"gen": [{"module": "HealthTick", "cfg": "HealthTick_gen.cfg", "params": {"Intervals": "{1000, 2000, 5000}"}}]},
+            "pkg": "internal/adapter/health", "test": "TestVerif_HealthTick",
+            "harness_files": ["tick_test.go"],
+            "trace": {"module": "HealthTickTrace", "cfg": "HealthTick_trace.cfg"},
+            "nontrivial": lambda s: True,
+        },
     ],
 }
 
